@@ -715,6 +715,9 @@ func (b *bitstream) readNsecs(length uint64) (int, bool, uint8, error) {
 	// otherwise set exponent value as per the scale value
 	if d.scale < 0 && nsec == 0 {
 		exponent = uint8(0)
+	} else if d.scale < 0 || d.scale > math.MaxUint8 {
+		// More digits than we can count (or keep); the precision is capped later on.
+		exponent = math.MaxUint8
 	} else {
 		exponent = uint8(d.scale)
 	}
